@@ -97,6 +97,8 @@ func applyServiceExtends(ctx context.Context, name string, services map[string]a
 			return nil, err
 		}
 		filename = refFilename
+		// the services followed from here on are those of the extended file
+		ctx = context.WithValue(ctx, consts.ComposeFileKey{}, refFilename)
 	} else {
 		_, ok := services[ref]
 		if !ok {
